@@ -308,8 +308,10 @@ def judge(pr0, snap, out, sig):
     for clo in ('HNC', 'PY'):
         psi = call(C.solvation_potential, fresh(), closure=clo)
         csc = np.empty_like(snap['c'])
+        mag = np.empty_like(snap['c'])
         for m in range(len(k)):
             csc[m] = snap['c'][m] @ Sret[m] @ snap['c'][m]
+            mag[m] = np.abs(snap['c'][m]) @ np.abs(Sret[m]) @ np.abs(snap['c'][m])
         with np.errstate(all='ignore'):
             fk = -snap['kT'] * csc if clo == 'HNC' else -snap['kT'] * np.log(1.0 + csc)
         wantp = np.empty_like(fk)
@@ -324,7 +326,12 @@ def judge(pr0, snap, out, sig):
                 for q in range(rank):
                     if finite[p, q]:
                         sc = np.max(np.abs(wantp[:, p, q])) + np.max(np.abs(fk[:, p, q])) * 1e-3
-                        ok = ok and close(psi.data[:, p, q], wantp[:, p, q], sc, 1e-8)
+                        # C S C can be a small difference of large terms (C_ab ~ -C_aa): its rounding is relative to the terms,
+                        # |C||S||C|, and reaches r-space through sum_k coeff_k |.| / r
+                        with np.errstate(all='ignore'):
+                            amp = 1.0 / np.maximum(np.abs(1.0 + csc[:, p, q]), 1e-300) if clo == 'PY' else 1.0      # d ln(1+x)/dx
+                            termbound = 2.0 * float(np.sum(dom.DST_III_coeffs * snap['kT'] * mag[:, p, q] * amp)) / dom.r
+                        ok = ok and bool(np.all(np.abs(psi.data[:, p, q] - wantp[:, p, q]) <= 1e-8 * sc + 1e3 * EPS * termbound))
                     else:
                         ok = ok and not np.all(np.isfinite(psi.data[:, p, q]))
         if not ok:
